@@ -265,6 +265,14 @@ type BV struct {
 	W      int
 	B      []*Node // B[0] = least significant bit
 	Signed bool
+	Hex    []*Node // when set (4 nodes, LSB first): this octet is the lowercase hexadecimal character of that nibble
+}
+
+// DecV: a non-negative decimal integer known digit by digit (D[0] = most significant digit,
+// each a 4-bit vector with value 0..9). LeadNZ: the leading digit is not zero.
+type DecV struct {
+	D      []BV
+	LeadNZ bool
 }
 
 func (v BV) IsConst() (uint64, bool) {
@@ -355,6 +363,7 @@ type Interp struct {
 	Effects  []string        // notable events (bulk copies etc.)
 	Writes   map[string]bool // cells written: obj.Name+path
 	nobj     int
+	Premise  *Node // assumption about the sources (e.g. "this nibble is a decimal digit"); used to decide branches
 	nest     int // current if-conversion nesting
 	pdom     map[*ssa.Function]map[*ssa.BasicBlock]*ssa.BasicBlock
 	Models   map[string]func(it *Interp, st *state, call *ssa.CallCommon, args []Value) (Value, bool)
@@ -740,6 +749,13 @@ func (it *Interp) run(fn *ssa.Function, b, prev, until *ssa.BasicBlock, st *stat
 					it.unsup("non-boolean branch condition in %s", fn.String())
 					return frameResult{st: st, returned: true, ret: OpaqueV{"cond"}}
 				}
+				if it.Premise != nil && cb.B[0].op != opOne && cb.B[0].op != opZero {
+					if it.T.Equiv(it.T.And(it.Premise, cb.B[0]), it.T.zero) {
+						cb.B[0] = it.T.zero
+					} else if it.T.Equiv(it.T.And(it.Premise, it.T.Not(cb.B[0])), it.T.zero) {
+						cb.B[0] = it.T.one
+					}
+				}
 				switch cb.B[0].op {
 				case opOne:
 					next = b.Succs[0]
@@ -1117,6 +1133,10 @@ func (it *Interp) step(st *state, ins ssa.Instruction, depth int) {
 				st.regs[x] = it.constBV(uint64(s.S[idx]), 8)
 				return
 			}
+			if s, isStr := it.val(st, x.X).(StrV); isStr && ok && s.Sym && idx < len(s.Chars) {
+				st.regs[x] = s.Chars[idx]
+				return
+			}
 			it.unsup("symbolic index (value) in %s", x.Parent().String())
 			st.regs[x] = OpaqueV{"index"}
 			return
@@ -1164,8 +1184,44 @@ func (it *Interp) step(st *state, ins ssa.Instruction, depth int) {
 	case *ssa.BinOp:
 		st.regs[x] = it.binop(x, it.val(st, x.X), it.val(st, x.Y))
 	case *ssa.Convert:
-		st.regs[x] = it.convert(it.val(st, x.X), x.X.Type(), x.Type())
+		v := it.val(st, x.X)
+		// string([]byte) of known length: one character per octet
+		if sl, ok := v.(SliceV); ok && isStringT(x.Type()) && sl.Len >= 0 && !sl.Nil {
+			out := StrV{Sym: true}
+			for i := 0; i < sl.Len; i++ {
+				if b, ok := it.load(st, it.sliceElemPtr(sl, i), types.Typ[types.Uint8]).(BV); ok {
+					out.Chars = append(out.Chars, b)
+				}
+			}
+			if len(out.Chars) == sl.Len {
+				st.regs[x] = out
+				return
+			}
+		}
+		// []byte(string)
+		if s, ok := v.(StrV); ok {
+			if _, isSl := x.Type().Underlying().(*types.Slice); isSl && (s.Sym || s.Known) {
+				o := it.NewObj(fmt.Sprintf("bytes%d", it.nobj+1), false)
+				st.mem[o] = map[string]Value{}
+				n := len(s.Chars)
+				if s.Known {
+					n = len(s.S)
+				}
+				for i := 0; i < n; i++ {
+					if s.Known {
+						st.mem[o][fmt.Sprintf("[%d]", i)] = it.constBV(uint64(s.S[i]), 8)
+					} else {
+						st.mem[o][fmt.Sprintf("[%d]", i)] = s.Chars[i]
+					}
+				}
+				st.regs[x] = SliceV{Obj: o, Len: n}
+				return
+			}
+		}
+		st.regs[x] = it.convert(v, x.X.Type(), x.Type())
 	case *ssa.ChangeType:
+		st.regs[x] = it.val(st, x.X)
+	case *ssa.ChangeInterface:
 		st.regs[x] = it.val(st, x.X)
 	case *ssa.Store:
 		p, ok := it.val(st, x.Addr).(Ptr)
@@ -1319,6 +1375,25 @@ func (it *Interp) slice(st *state, x *ssa.Slice) Value {
 }
 
 func (it *Interp) convert(v Value, from, to types.Type) Value {
+	if d, ok := v.(DecV); ok {
+		if w, sg, okT := typeWidth(to); okT {
+			if len(d.D) == 1 {
+				if bvd, ok := it.decToBV(d, w, sg); ok {
+					return bvd
+				}
+			}
+			if w >= 16 {
+				return d // value-preserving widening/narrowing of a small decimal
+			}
+		}
+		return OpaqueV{"convert decimal"}
+	}
+	// string(byte) and string([]byte)
+	if isStringT(to) {
+		if bv, ok := v.(BV); ok && bv.W == 8 {
+			return StrV{Sym: true, Chars: []BV{bv}}
+		}
+	}
 	b, ok := v.(BV)
 	w, sg, ok2 := typeWidth(to)
 	if ok && ok2 {
@@ -1372,8 +1447,71 @@ func (it *Interp) orReduce(x BV) *Node {
 }
 
 func (it *Interp) binop(x *ssa.BinOp, a, b Value) Value {
+	if v, ok := it.decBinop(x, a, b); ok {
+		return v
+	}
+	// a single decimal digit behaves as a small integer
+	if d, ok := a.(DecV); ok {
+		if w, sg, okT := typeWidth(x.X.Type()); okT {
+			if bvd, ok := it.decToBV(d, w, sg); ok {
+				a = bvd
+			}
+		}
+	}
+	if d, ok := b.(DecV); ok {
+		if w, sg, okT := typeWidth(x.Y.Type()); okT {
+			if bvd, ok := it.decToBV(d, w, sg); ok {
+				b = bvd
+			}
+		}
+	}
 	av, ok1 := a.(BV)
 	bv, ok2 := b.(BV)
+	// hexadecimal characters compared with a constant character
+	if ok1 && ok2 && (x.Op == token.EQL || x.Op == token.NEQ) {
+		var r *Node
+		var okH bool
+		if av.Hex != nil {
+			if k, isC := bv.IsConst(); isC {
+				r, okH = it.compareHexChar(av, k)
+			}
+		} else if bv.Hex != nil {
+			if k, isC := av.IsConst(); isC {
+				r, okH = it.compareHexChar(bv, k)
+			}
+		}
+		if okH {
+			if x.Op == token.NEQ {
+				r = it.T.Not(r)
+			}
+			return BV{W: 1, B: []*Node{r}}
+		}
+	}
+	// string concatenation of symbolic / known text
+	if x.Op == token.ADD {
+		if sa, ok := a.(StrV); ok {
+			if sb, ok := b.(StrV); ok {
+				toChars := func(s StrV) ([]BV, bool) {
+					if s.Sym {
+						return s.Chars, true
+					}
+					if s.Known {
+						var cs []BV
+						for i := 0; i < len(s.S); i++ {
+							cs = append(cs, it.constBV(uint64(s.S[i]), 8))
+						}
+						return cs, true
+					}
+					return nil, false
+				}
+				ca, ok1 := toChars(sa)
+				cb, ok2 := toChars(sb)
+				if ok1 && ok2 && (sa.Sym || sb.Sym) {
+					return StrV{Sym: true, Chars: append(append([]BV{}, ca...), cb...)}
+				}
+			}
+		}
+	}
 	w, sg, okT := typeWidth(x.Type())
 	if !ok1 || !ok2 {
 		// pointer / nil comparisons
@@ -1676,6 +1814,9 @@ func (it *Interp) call(st *state, x *ssa.Call, c *ssa.CallCommon, depth int) Val
 	if v, ok := it.stdModel(st, name, c, args); ok {
 		return v
 	}
+	if v, ok := it.textModel(st, name, c, args); ok {
+		return v
+	}
 	if callee.Pkg != nil && IsRepoPkg(callee.Pkg.Pkg) && callee.Blocks != nil {
 		return it.Call(callee, args, st, depth+1)
 	}
@@ -1902,4 +2043,9 @@ func (st *state) CellsOf(o *MemObj) []string {
 	}
 	sort.Strings(ks)
 	return ks
+}
+
+func isStringT(t types.Type) bool {
+	b, ok := t.Underlying().(*types.Basic)
+	return ok && b.Info()&types.IsString != 0
 }
